@@ -123,7 +123,7 @@ def run(ctx, chk, tier="quick"):
         ok2 = True
         desc = "lstsq(%s, %s)" % (A, b)
     chk.ob("C05.O2", ok2, where_of(f, sv), desc, "solve(A^T A, A^T b) (or a least-squares solve of A x = b)",
-           key="find_offsets|normal-equations", why="any other pairing of operands solves a different problem than min |A x - b|^2")
+           key="find_offsets|normal-equations", scope=f, why="any other pairing of operands solves a different problem than min |A x - b|^2")
     if A is None:
         return
     # ---------------- O1: the row
@@ -174,7 +174,7 @@ def run(ctx, chk, tier="quick"):
     reset_ok = any(isinstance(r.value, ast.Constant) and r.value.value == 0 for r in reset) and \
         all(r.lineno < fill.lineno for r in reset)
     chk.ob("C05.O1", reset_ok, where_of(f, reset[0] if reset else fill), "row template reset per level: %s" % bool(reset_ok),
-           "coefficients of the previous level are cleared", key="find_offsets|template-reset",
+           "coefficients of the previous level are cleared", key="find_offsets|template-reset", scope=f,
            why="stale coefficients couple intervals that do not cross this level")
     # n := number of members (all of them)
     try:
@@ -210,7 +210,7 @@ def run(ctx, chk, tier="quick"):
         chk.ob("C05.O1", sigma is not None and count_all, where_of(f, fill),
                "member coefficient = %s with N = %s" % (c_all.key(), ast.unparse(cnt_nodes[0]) if cnt_nodes else "?"),
                "+-1/n with n = number of all intervals crossing the level (reference included)",
-               key="find_offsets|member-coefficient",
+               key="find_offsets|member-coefficient", scope=f,
                why="the mean at a level is over all its intervals; any other weight changes the minimiser on a two-interval example")
     except NotAlgebraic as exc:
         chk.indeterminate("C05.O1", where_of(f, fill), "member coefficient not algebraic: %s" % exc)
@@ -232,7 +232,7 @@ def run(ctx, chk, tier="quick"):
             elt_ok = isinstance(cdef.elt, ast.Subscript) and isinstance(cdef.elt.slice, ast.Name) and cdef.elt.slice.id == tv
             cols_ok = src_ok and elt_ok and ref_name is not None
     chk.ob("C05.O1", cols_ok, where_of(f, fill), "columns filled = %s" % (ast.unparse(cdef)[:90] if cdef is not None else "?"),
-           "the columns of every member of the level except the reference interval", key="find_offsets|member-columns",
+           "the columns of every member of the level except the reference interval", key="find_offsets|member-columns", scope=f,
            why="the reference interval's offset is fixed at zero and has no column")
     # own column: guarded by series != reference; delta -sigma
     guard_ok = False
@@ -259,7 +259,7 @@ def run(ctx, chk, tier="quick"):
            "own column: %s (delta %s) at column %s, guard on non-reference: %s, same row as copy and rhs: %s"
            % (ast.unparse(own), delta.key() if delta is not None else "?", ast.unparse(col_def) if col_def is not None else "?", guard_ok, row_same),
            "-sigma added on the interval's own column (sigma = sign of the member coefficient), only for non-reference intervals",
-           key="find_offsets|own-column", why="the residual of interval s is (x_s + t_s) - mean(x + t): its own offset enters with weight 1/n - 1")
+           key="find_offsets|own-column", scope=f, why="the residual of interval s is (x_s + t_s) - mean(x + t): its own offset enters with weight 1/n - 1")
     # right-hand side sigma (t - mean)
     try:
         mean_names = {}
@@ -295,7 +295,7 @@ def run(ctx, chk, tier="quick"):
         want = Poly.atom(tval) - Poly.atom("MEAN")
         rhs_ok = sigma is not None and rp == want.scale(sigma) and mean_all
         chk.ob("C05.O1", rhs_ok, where_of(f, rhs), "right-hand side = %s with MEAN = %s" % (rp.key(), ast.unparse(mcalls[0]) if mcalls else "?"),
-               "sigma (t_s - mean of the level's values over all its intervals)", key="find_offsets|rhs",
+               "sigma (t_s - mean of the level's values over all its intervals)", key="find_offsets|rhs", scope=f,
                why="with the wrong sign the offsets move the pieces apart instead of together")
     except NotAlgebraic as exc:
         chk.indeterminate("C05.O1", where_of(f, rhs), "right-hand side not algebraic: %s" % exc)
@@ -305,7 +305,7 @@ def run(ctx, chk, tier="quick"):
     inc_ok = len(incs) == 1 and isinstance(incs[0].op, ast.Add) and isinstance(incs[0].value, ast.Constant) and incs[0].value.value == 1 \
         and incs[0] in inner.body and inner.body.index(incs[0]) > max(inner.body.index(x) if x in inner.body else -1 for x in (row_copy, rhs))
     chk.ob("C05.O1", inc_ok, where_of(f, incs[0] if incs else inner), "row counter advances once per (level, interval), after the row is written: %s" % inc_ok,
-           "one equation per crossing", key="find_offsets|row-counter")
+           "one equation per crossing", key="find_offsets|row-counter", scope=f)
 
     # every level of the mapping and every member of a level contributes its row: no cycle of the
     # level loop avoids the member loop, no cycle of the member loop avoids the row copy / rhs store
@@ -322,7 +322,7 @@ def run(ctx, chk, tier="quick"):
     skip_member = ih is not None and (cycle_avoiding(ih, n_copy) or cycle_avoiding(ih, n_rhs))
     chk.ob("C05.O1", not skip_level and not skip_member, where_of(f, outer),
            "an iteration of the level loop can skip the member loop: %s; an iteration of the member loop can skip the row: %s" % (skip_level, skip_member),
-           "one residual row for every (level, interval) crossing in the mapping", key="find_offsets|no-skipped-rows",
+           "one residual row for every (level, interval) crossing in the mapping", key="find_offsets|no-skipped-rows", scope=f,
            why="a level left out of the system still appears in the master curve: the offsets then do not minimise the spread that is reported")
     # the mapping iterated is the function's (pruned) input, and A, b are used whole
     it_txt = ast.unparse(outer.iter)
@@ -357,7 +357,7 @@ def run(ctx, chk, tier="quick"):
                             rebound.append(st)
     chk.ob("C05.O1", f.params[0] in it_txt and not sliced and not rebound, where_of(f, (rebound or sliced or [outer])[0]),
            "level loop over %s; system changed between assembly and solve: %s" % (it_txt, [ast.unparse(r)[:70] for r in (rebound or sliced)] or "no"),
-           "all levels of the mapping, all assembled rows, each with its multiplicity", key="find_offsets|whole-system",
+           "all levels of the mapping, all assembled rows, each with its multiplicity", key="find_offsets|whole-system", scope=f,
            why="dropping, de-duplicating or re-weighting rows changes the objective: identical rows are weights in least squares")
     # levels dropped before fitting: exactly those crossed by a single interval
     prunes = [n for n in ast.walk(f.node) if isinstance(n, ast.Delete) and any(isinstance(t, ast.Subscript) and isinstance(t.value, ast.Name)
@@ -389,7 +389,7 @@ def run(ctx, chk, tier="quick"):
                 okp = False
         chk.ob("C05.O1", okp, where_of(f, pr), "levels dropped when `%s`" % (ast.unparse(cond) if cond is not None else "unconditionally"),
                "only levels crossed by a single interval are dropped (their rows are identically zero)",
-               key="find_offsets|pruning", why="dropping a level shared by two or more intervals removes its residuals from the objective")
+               key="find_offsets|pruning", scope=f, why="dropping a level shared by two or more intervals removes its residuals from the objective")
     # ---------------- O3: reference position
     if ref_name:
         probe = None
@@ -426,7 +426,7 @@ def run(ctx, chk, tier="quick"):
                "reference = %s of sorted ids: %s; solution completed as %s; returned ids are that sorted list: %s"
                % (ast.unparse(rdef) if rdef is not None else "?", ids_sorted, cdesc, ids_ok),
                "reference = last of the sorted ids, and the constant 0 is appended at the end of the solution",
-               key="find_offsets|reference-position",
+               key="find_offsets|reference-position", scope=f,
                why="ids and offsets are paired by position; a zero at the wrong end shifts every offset to its neighbour")
     # ---------------- O4: views
     for view, off, cross, out, tab, ztab in (("average_recession_time", "time_offset_s", "mean_crossing_time", "elapsed_time_s", "recession_interval", "recession_interval_zeta"),
